@@ -156,7 +156,19 @@ fn builder_history(spec: &str) -> String {
     let num = |s: &str| s.parse::<u64>().unwrap_or(0);
     let mut expect: Vec<u8> = Vec::new();
     let mut explicit: Option<u16> = None;
-    let (mut b, vc, afp) = if ctor[0] == "ipv4" {
+    let (mut b, vc, afp) = if ctor[0] == "unix" {
+        let vc = num(ctor[1]) as u8;
+        let p = num(ctor[2]) as u8;
+        let proto = match p { 0 => Protocol::Unspecified, 1 => Protocol::Stream, _ => Protocol::Datagram };
+        let sv = unhex(ctor[3]);
+        let mut s = [0x41u8; 108];
+        let mut d = [0x42u8; 108];
+        s[0] = sv[0]; s[53] = sv[1]; s[107] = sv[2];
+        d[0] = sv[3]; d[54] = sv[4]; d[107] = sv[5];
+        expect.extend_from_slice(&s);
+        expect.extend_from_slice(&d);
+        (Builder::with_addresses(vc, proto, Addresses::Unix(ppp::v2::Unix::new(s, d))), vc, 0x30 | p)
+    } else if ctor[0] == "ipv4" {
         let vc = num(ctor[1]) as u8;
         let p = num(ctor[2]) as u8;
         let proto = match p { 0 => Protocol::Unspecified, 1 => Protocol::Stream, _ => Protocol::Datagram };
